@@ -169,6 +169,24 @@ pub struct MtState {
     /// node offset -> (marking thread, did the CAS that followed its mark succeed?)
     pub marks: BTreeMap<usize, (usize, Option<bool>)>,
     pub pending_mark: Vec<Option<usize>>,
+    pub mark_line: Vec<u32>,
+    /// removal mark of thread t that is neither unlinked nor taken back yet: (node offset, line of the mark CAS)
+    pub outstanding: Vec<Option<(usize, u32)>>,
+    // ---- C06 with threads in flight: memory image + obligations at atomic steps
+    pub crash_every: Option<u64>,
+    pub crash_points: Vec<CrashPt>,
+    pub last_global: (u32, u8, u8),
+}
+
+/// One crash point of a multi-thread run: what the page cache holds at that instant and which ranges
+/// had been returned to their owners and were not being released.
+pub struct CrashPt {
+    pub step: u64,
+    pub bytes: Vec<u8>,
+    pub obligations: Vec<ShadowRange>,
+    /// site tag: the pending removal mark of some thread, else the last access performed
+    pub site: String,
+    pub in_flight: usize,
 }
 
 pub fn lock() -> MutexGuard<'static, Option<Box<MtState>>> {
@@ -513,6 +531,21 @@ pub fn before(t: usize, a: &Access) -> bool {
         }
     }
     let s = g.as_mut().unwrap();
+    // ---- crash point: the instant before this access is performed
+    if let Some(every) = s.crash_every {
+        if s.steps % every.max(1) == 0 && s.crash_points.len() < 6000 && !s.torn_down {
+            let bytes = unsafe { std::slice::from_raw_parts(s.base as *const u8, s.cap) }.to_vec();
+            let site = match (0..s.n).find_map(|u| s.outstanding[u]) {
+                Some((_, line)) => format!("after cas:ok@{}", crate::scen::linemap().func(line)),
+                None if s.last_global.0 == 0 => "operation boundary".to_string(),
+                None => format!("after {}:{}@{}", hook::kind_name(s.last_global.1), ["fail", "ok", "spurious"][s.last_global.2 as usize % 3], crate::scen::linemap().func(s.last_global.0)),
+            };
+            let in_flight = s.in_call.iter().filter(|c| c.is_some()).count();
+            let obligations = s.shadow.iter().filter(|r| r.cap > 0).cloned().collect();
+            let step = s.steps;
+            s.crash_points.push(CrashPt { step, bytes, obligations, site, in_flight });
+        }
+    }
     // ---- spurious failure of a weak CAS
     if a.kind == Kind::CasWeak {
         s.weak_cas_count[t] += 1;
@@ -545,6 +578,7 @@ pub fn after(t: usize, a: &Access) {
     s.trace_hash = hash_add(hash_add(s.trace_hash, ((t as u64) << 56) ^ nid), ((a.line as u64) << 8) | ((kind_id(a.kind) as u64) << 2) | outcome as u64);
     *s.probes.entry((a.line, kind_id(a.kind), outcome)).or_insert(0) += 1;
     s.last[t] = LastAccess { line: a.line, kind: kind_id(a.kind), addr_norm: s.norm(a.addr), old: a.old };
+    s.last_global = (a.line, kind_id(a.kind), outcome);
     if let Some(ev) = s.events.as_mut() {
         if ev.len() < 20_000 {
             let nm = if a.addr >= s.base && a.addr < s.base + s.cap { format!("arena+{}", a.addr - s.base) } else { format!("hdr/mem@{:x}", a.addr & 0xfff) };
@@ -573,6 +607,15 @@ pub fn after(t: usize, a: &Access) {
                 }
             }
         }
+        // outstanding removal marks: from the mark CAS until the unlink CAS succeeds or the mark is taken back
+        if matches!(a.kind, Kind::Cas | Kind::CasWeak) && a.success {
+            let is_mark = (a.operand >> 32) == 0 && (a.expected >> 32) != 0 && a.addr >= s.base && a.addr < s.base + s.cap;
+            if is_mark {
+                s.outstanding[t] = Some((a.addr - s.base, a.line));
+            } else if s.outstanding[t].is_some() {
+                s.outstanding[t] = None;
+            }
+        }
         // removal marks and the outcome of the unlink CAS that follows them
         if matches!(a.kind, Kind::Cas | Kind::CasWeak) {
             if let Some(x) = s.pending_mark[t].take() {
@@ -583,6 +626,7 @@ pub fn after(t: usize, a: &Access) {
                 let off = a.addr - s.base;
                 s.marks.insert(off, (t, None));
                 s.pending_mark[t] = Some(off);
+                s.mark_line[t] = a.line;
             }
         }
         let step = s.steps;
@@ -933,6 +977,7 @@ fn run_top(t: usize, op: &TOp, arenas: &mut Vec<Option<Box<Arena>>>, handles: &m
                         if cap > 0 {
                             if off < s.data_offset || off + cap > s.cap || boff + bcap > s.cap + 8 {
                                 s.violation("C02", "out_of_bounds", format!("[alloc] T{} got range [{},{}) outside the data area [{},{})", t, off, off + cap, s.data_offset, s.cap));
+                                s.violation("C04", "out_of_capacity", format!("[under interleaving] T{} was handed [{},{}) on an arena of {} bytes", t, off, off + cap, s.cap));
                                 bad = true;
                             }
                             let allocated = a.verif_header().1 as usize;
@@ -971,7 +1016,11 @@ fn run_top(t: usize, op: &TOp, arenas: &mut Vec<Option<Box<Arena>>>, handles: &m
                             }
                         };
                         if let Some(d) = bad {
-                            with(|s| s.violation("C03", "layout", format!("[under interleaving] T{} {}", t, d)));
+                            with(|s| {
+                                s.violation("C03", "layout", format!("[under interleaving] T{} {}", t, d));
+                                // C04: a successful allocation call returns a handle satisfying C01 / C03
+                                s.violation("C04", "ok_handle_violates_layout", format!("[under interleaving] T{} {}", t, d));
+                            });
                         }
                     }
                     // C08 under interleavings: alloc_bytes returns zero-filled memory
@@ -1135,6 +1184,7 @@ pub struct MtParams {
     pub hb: bool,
     pub record_events: bool,
     pub max_steps: u64,
+    pub crash_every: Option<u64>,
 }
 
 pub fn expand_schedule(rle: &[(u8, u32)]) -> Vec<u8> {
@@ -1212,6 +1262,11 @@ pub fn install(arena: &Arena, p: &MtParams, initial_shadow: Vec<ShadowRange>) {
         aba: Vec::new(),
         marks: BTreeMap::new(),
         pending_mark: vec![None; n],
+        mark_line: vec![0; n],
+        outstanding: vec![None; n],
+        crash_every: p.crash_every,
+        crash_points: Vec::new(),
+        last_global: (0, 0, 0),
     };
     *lock() = Some(Box::new(st));
 }
